@@ -10,7 +10,7 @@ from gvsim.lib import BUILTIN_TYPES, COLORS, HEADINGS, blocks_vision, mk_obj, mk
 from gvsim.sim import Raised, sut
 
 PROP = 'C06'
-TIERS = {'quick': {'runs': 1800, 'wall': 100}, 'thorough': {'runs': 45000, 'wall': 1500}}
+TIERS = {'quick': {'runs': 1400, 'wall': 100}, 'thorough': {'runs': 40000, 'wall': 1500}}
 RULE = ('one run = a free-form world rich in occluders (walls, closed / locked / open doors), one occluding observation '
         'function (partially_occluded, raytracing, stochastic_raytracing) and a view area, and a walking client; at '
         'every read the faults corrupt_hidden (replace the content of a world cell that is reported Hidden or lies '
@@ -65,7 +65,8 @@ def generate(seed, run, tier):
         else:
             ops.append(['stoch', r.choice(['real', 'uniform', 'first', 'last', 'mixed']), r.randrange(2**31)])
     return {'property': PROP, 'seed': seed, 'run': run, 'tier': tier, 'debug': r.random() < 0.5, 'world': world,
-            'obs': {'name': name, 'area': area}, 'via_factory': r.random() < 0.5, 'ops': ops}
+            'obs': {'name': name, 'area': area}, 'via_factory': r.random() < 0.5, 'ops': ops,
+            'alias_objects': stream(seed, PROP, run, 'alias').random() < 0.15}
 
 
 def execute(record, ctx):
@@ -103,6 +104,20 @@ def execute(record, ctx):
                 continue
             ow = world_of(o)
             _, k, obj, where = op
+            # the visibility the observation function itself applied (not only the bare visibility function):
+            # the agent's own cell is shown and every shown cell is linked to it by shown transparent cells
+            gt0 = V.ground_truth(w, area)
+            shown = V.mask_of(ow)
+            opq = np.array([[blocks_vision(t if t is not None else ('Hidden',)) for (t, _) in row] for row in gt0], dtype=bool)
+            in_grid = np.array([[t is not None for (t, _) in row] for row in gt0], dtype=bool)
+            if shown.shape == in_grid.shape and 0 <= anchor[0] < vh and 0 <= anchor[1] < vw and in_grid[anchor]:
+                if not shown[anchor]:
+                    ctx.violate('occlusion', 'agent_cell_not_visible', name, 'observation', i, f'the observation hides the agent\'s own cell {anchor}; area {area} agent {w["agent"][:3]}')
+                    continue
+                okc, badc = V.chain_ok(shown, opq, anchor)
+                if not okc:
+                    ctx.violate('occlusion', 'visible_without_chain', name, 'observation', i, f'the observation shows view cell {badc} although no chain of adjacent transparent visible cells links it to the agent at {anchor}; area {area} agent {w["agent"][:3]}')
+                    continue
             # cells of the world that the observation does not show
             gt = V.ground_truth(w, area)
             in_view = {}
